@@ -1228,7 +1228,19 @@ pub fn c07_conc(_sc: &Scenario, hx: &Hx, v: &mut Verdict) {
     let ttl_touched: std::collections::HashSet<u32> =
         hx.writes.iter().filter(|w| matches!(&w.op, Op::Upsert { ttl: Some(_), .. })).map(|w| w.key).collect();
     let mut raced = false;
+    // delete() marks the entry on the caller thread when it returns: from then on the key is held
+    // but not readable
+    let mut marks: Vec<(u64, u32)> = hx.writes.iter().filter(|w| w.is_delete() && w.ok).filter_map(|w| w.ret.map(|r| (r, w.key))).collect();
+    marks.sort();
+    let mut mark_pos = 0usize;
+    let mut soft: std::collections::HashSet<u32> = Default::default();
     for (s, _role, ev) in &hx.hooks {
+        while mark_pos < marks.len() && marks[mark_pos].0 < *s {
+            if present.contains_key(&marks[mark_pos].1) {
+                soft.insert(marks[mark_pos].1);
+            }
+            mark_pos += 1;
+        }
         match ev {
             Hook::ApplyEnd { ack, st } => {
                 let w = match hx.widx.get(ack) {
@@ -1239,7 +1251,7 @@ pub fn c07_conc(_sc: &Scenario, hx: &Hx, v: &mut Verdict) {
                 if kind == "Put" || kind == "PutWithTTL" {
                     if *st == St::Accepted {
                         if let Some((old_id, has_ttl, old_val)) = present.get(&w.key) {
-                            if !*has_ttl && !ttl_touched.contains(&w.key) {
+                            if !*has_ttl && !ttl_touched.contains(&w.key) && !soft.contains(&w.key) {
                                 v.fail(
                                     "C07",
                                     format!("C07/overwrote-readable/conc,variant={}", opname(&w.op)),
@@ -1252,6 +1264,7 @@ pub fn c07_conc(_sc: &Scenario, hx: &Hx, v: &mut Verdict) {
                             }
                         }
                         let ttl = kind == "PutWithTTL";
+                        soft.remove(&w.key);
                         if !removed.contains(&w.key_id) {
                             present.insert(w.key, (w.key_id, ttl, w.value().unwrap_or(0)));
                         } else {
@@ -1263,14 +1276,15 @@ pub fn c07_conc(_sc: &Scenario, hx: &Hx, v: &mut Verdict) {
                     }
                 } else if kind == "Delete" && *st == St::Accepted {
                     present.remove(&w.key);
+                    soft.remove(&w.key);
                 }
             }
             Hook::Evicted { id } | Hook::SweepExpired { id, .. } => {
                 removed.insert(*id);
+                // the evict hook deletes the store entry *by key*, whatever incarnation is stored
                 if let Some(k) = id_key.get(id) {
-                    if present.get(k).map(|p| p.0 == *id).unwrap_or(false) {
-                        present.remove(k);
-                    }
+                    present.remove(k);
+                    soft.remove(k);
                 }
             }
             _ => {}
@@ -1336,6 +1350,8 @@ pub fn c08_conc(sc: &Scenario, hx: &Hx, v: &mut Verdict) {
         // of which "upsert on an entry marked deleted" is one case). Program order stays the
         // expectation; a mismatch on such a key is reported under D12's signature.
         let mut overtook = false;
+        // C08 only speaks about what upserts leave behind
+        let mut last_effective_is_upsert = false;
         for (i, w) in ws.iter().enumerate() {
             if i > 0 {
                 // was the previous command still in flight when this call was made?
@@ -1362,6 +1378,7 @@ pub fn c08_conc(sc: &Scenario, hx: &Hx, v: &mut Verdict) {
                     }
                     if st == St::Accepted {
                         cur = Some((weight.unwrap_or_else(|| weight_of(&sc.cfg.weight_fn, k, *val, false)), *val));
+                        last_effective_is_upsert = false;
                     } else if st != St::RejExists {
                         known = false;
                         break;
@@ -1377,6 +1394,7 @@ pub fn c08_conc(sc: &Scenario, hx: &Hx, v: &mut Verdict) {
                         if st == St::Accepted {
                             let v0 = val.unwrap_or(0);
                             cur = Some((weight.unwrap_or_else(|| weight_of(&sc.cfg.weight_fn, k, v0, false)), v0));
+                            last_effective_is_upsert = true;
                         } else if st != St::RejExists {
                             known = false;
                             break;
@@ -1395,11 +1413,13 @@ pub fn c08_conc(sc: &Scenario, hx: &Hx, v: &mut Verdict) {
                                 let nv = val.unwrap_or(cv);
                                 let nw = weight.or_else(|| val.map(|x| weight_of(&sc.cfg.weight_fn, k, x, false))).unwrap_or(cw);
                                 cur = Some((nw, nv));
+                                last_effective_is_upsert = true;
                             }
                             None => match (pending_conflict, val, st) {
                                 // the key read as absent: the upsert has to behave like the corresponding put
                                 (true, Some(x), St::Accepted) => {
                                     cur = Some((weight.unwrap_or_else(|| weight_of(&sc.cfg.weight_fn, k, *x, false)), *x));
+                                    last_effective_is_upsert = true;
                                 }
                                 _ => {
                                     known = false;
@@ -1412,6 +1432,7 @@ pub fn c08_conc(sc: &Scenario, hx: &Hx, v: &mut Verdict) {
                 Op::Delete { .. } => {
                     if st == St::Accepted || st == St::RejNoKey {
                         cur = None;
+                        last_effective_is_upsert = false;
                     } else {
                         known = false;
                         break;
@@ -1420,7 +1441,7 @@ pub fn c08_conc(sc: &Scenario, hx: &Hx, v: &mut Verdict) {
                 _ => {}
             }
         }
-        if !known {
+        if !known || !last_effective_is_upsert {
             continue;
         }
         let entry = o.store.iter().find(|s| s.0 == k);
